@@ -611,3 +611,6 @@ register(Unit(P, "S3/_try_takeover_expired", h_takeover, functions=[f"{LP}:S3Loc
 register(Unit(P, "S3/_renew_once", h_renew, functions=[f"{LP}:S3LockProvider._renew_once"], replay=_replay_takeover_renewal))
 register(Unit(P, "S3/is_held", h_is_held_s3, functions=[f"{LP}:S3LockProviderBase.is_held"], replay=_replay_s3lock))
 register(Unit(P, "S3/release", h_release_s3, functions=[f"{LP}:S3LockProviderBase.release"], replay=_replay_s3lock))
+
+from contracts import lemmas as _L  # noqa: E402
+register(Unit(P, "LEMMA/EXCL", _L.h_excl, functions=[], replay=_replay_s3lock, uses=_L.EXCL_USES))
